@@ -82,7 +82,7 @@ pub fn trace_hashes(w: &World) -> (String, String) {
 	for e in w.trace.iter() {
 		let (res, detail): (String, String) = match &e.ev {
 			Ev::Boot { n } => ("d".into(), format!("boot{}", n)),
-			Ev::BootOk { n } => ("d".into(), format!("bootok{}", n)),
+			Ev::BootOk { n, .. } => ("d".into(), format!("bootok{}", n)),
 			Ev::BootErr { n, msg } => ("d".into(), format!("booterr{}:{}", n, msg.replace(w.scratch.to_string_lossy().as_ref(), "@"))),
 			Ev::Stopped { why } => ("d".into(), format!("stopped:{}", why)),
 			Ev::AttemptBegin { cert, .. } => (cert.clone(), "begin".into()),
@@ -104,6 +104,9 @@ pub fn trace_hashes(w: &World) -> (String, String) {
 		};
 		full.push_str(&format!("{}|{}|{}|{}\n", e.seq, e.t, res, detail));
 		ileave.push_str(&format!("{}|{}\n", res, detail.split(':').next().unwrap_or("")));
+	}
+	if let Ok(p) = std::env::var("ACMED_VERIF_DUMP_NORM") {
+		let _ = std::fs::write(p, &full);
 	}
 	(sha256_hex(full.as_bytes())[..16].to_string(), sha256_hex(ileave.as_bytes())[..16].to_string())
 }
